@@ -63,6 +63,17 @@ def _set(xs: Iterable[int]) -> str:
     return "{" + ",".join(str(x) for x in xs) + "}"
 
 
+def _written(d: Path, form: str) -> Any:
+    """How a directory is written in COMPONENTS.dirs / STATICFILES_DIRS."""
+    if form == "path":
+        return d
+    if form == "tuple":
+        return ("pfx", str(d))
+    if form == "tuple-path":
+        return ("pfx", d)
+    return str(d)
+
+
 # ---------------------------------------------------------------- the world
 class World:
     """S/proj (BASE_DIR) with apps genapp and pk.napp, S/pr[1]j (BASE_DIR with glob metacharacters),
@@ -157,49 +168,53 @@ class World:
         return best
 
     # -- settings ------------------------------------------------------
-    def settings_for(self, roots: List[Dict[str, Any]], dup_first: bool = False) -> Dict[str, Any]:
-        """BASE_DIR / COMPONENTS / STATICFILES_DIRS that configure the roots the way root.id says."""
+    def settings_for(self, roots: List[Dict[str, Any]], cfg: Dict[str, Any], dup_first: bool = False) -> Dict[str, Any]:
+        """BASE_DIR / COMPONENTS / STATICFILES_DIRS that say what the abstract case says: COMPONENTS.dirs is the
+        list of roots with a "dirs" mention when cfg.dirs is "set" (possibly empty) and is not given otherwise,
+        STATICFILES_DIRS the list of roots with a "static" mention, app_dirs cfg.appnames when cfg.appdirs is
+        "set".  cfg.form: COMPONENTS as a dict, a dict with None for what is not given, or a ComponentsSettings."""
         comp: Dict[str, Any] = {"autodiscover": False}
         dirs: List[Any] = []
         static: List[Any] = []
-        app_dirs = set()
-        use_default = False
         bracket = any(r["globmeta"] for r in roots)
         for r in roots:
-            d = self.root_dir(r)
-            rid = r["id"]
             if r["kind"] == "app":
-                app_dirs.add(r["prefix"][-1])
-            elif rid == "static":
-                static.append(str(d))
-            elif rid == "static-tuple":
-                static.append(("pfx", d))
-            elif rid == "default":
-                use_default = True
-            elif rid == "dirs-path":
-                dirs.append(d)
-            else:
-                dirs.append(str(d))
+                continue
+            d = self.root_dir(r)
+            for m in r["src"]:
+                if m["in"] == "dirs":
+                    dirs.append(_written(d, m["form"]))
+                elif m["in"] == "static":
+                    static.append(_written(d, m["form"]))
+                elif m["in"] != "default" or r["prefix"] != ["components"]:
+                    raise MachineryError(f"root mention not understood: {r}")
         if dup_first and dirs:
-            dirs.append(Path(dirs[0]) if isinstance(dirs[0], str) else str(dirs[0]))
-        if static or use_default:
-            if dirs or (static and use_default):
-                raise MachineryError("legacy/default roots cannot be combined with COMPONENTS.dirs roots")
-        else:
+            first = dirs[0][1] if isinstance(dirs[0], tuple) else dirs[0]
+            dirs.append(Path(first) if isinstance(first, str) else str(first))
+        if cfg["dirs"] == "set":
             comp["dirs"] = dirs
-        if app_dirs and app_dirs != {"components"}:
-            comp["app_dirs"] = sorted(app_dirs)
-        elif not app_dirs:
-            comp["app_dirs"] = [] if not (static or use_default) and len(roots) % 2 == 0 else ["components"]
-        return {"BASE_DIR": self.projb if bracket else self.proj, "COMPONENTS": comp, "STATICFILES_DIRS": static}
+        elif dirs:
+            raise MachineryError("a COMPONENTS.dirs entry in a configuration without COMPONENTS.dirs")
+        elif cfg["form"] == "dict-none":
+            comp["dirs"] = None
+        if cfg["appdirs"] == "set":
+            comp["app_dirs"] = list(cfg["appnames"])
+        elif cfg["form"] == "dict-none":
+            comp["app_dirs"] = None
+        return {"BASE_DIR": self.projb if bracket else self.proj, "COMPONENTS": comp, "STATICFILES_DIRS": static,
+                "form": cfg["form"]}
 
     @contextmanager
-    def configured(self, roots: List[Dict[str, Any]], dup_first: bool = False):
+    def configured(self, roots: List[Dict[str, Any]], cfg: Dict[str, Any], dup_first: bool = False):
         from django.conf import settings
         old = (settings.BASE_DIR, settings.COMPONENTS, settings.STATICFILES_DIRS)
-        st = self.settings_for(roots, dup_first)
+        st = self.settings_for(roots, cfg, dup_first)
+        comp = st["COMPONENTS"]
+        if st["form"] == "object":
+            from django_components import ComponentsSettings
+            comp = ComponentsSettings(**comp)
         settings.BASE_DIR, settings.COMPONENTS, settings.STATICFILES_DIRS = \
-            st["BASE_DIR"], st["COMPONENTS"], st["STATICFILES_DIRS"]
+            st["BASE_DIR"], comp, st["STATICFILES_DIRS"]
         try:
             yield
         finally:
@@ -276,21 +291,24 @@ _exports: Dict[str, Tuple[List[Any], int, int]] = {}
 
 
 def replay_row(chk: Check, world: World, row: Dict[str, Any]) -> None:
-    roots = [row["root"]]
+    roots = row["roots"]
     world.reset(roots)
-    for e in row["entries"]:
-        world.mk(1, e["kind"], e["parts"])
+    for k, tree in enumerate(row["trees"], 1):
+        for e in tree:
+            world.mk(k, e["kind"], e["parts"])
     case = {"kind": "tree", "row": row}
-    nontrivial = bool(row["exp"]) or bool(row["entries"])
-    chk.count([row["root"]["id"], row["sfx"], row["entries"]], nontrivial=nontrivial)
-    with world.configured(roots):
+    nontrivial = bool(row["exp"]) or any(row["trees"])
+    chk.count([row["label"], row["cfg"], [[r["prefix"], r["src"]] for r in roots], row["sfx"], row["trees"]],
+              nontrivial=nontrivial)
+    with world.configured(roots, row["cfg"]):
         try:
             got = obs_scan(world, row["sfx"])
         except Exception as e:  # noqa: BLE001  (the specification never raises)
             chk.violation(case, {"stage": "get_component_files", "exception": repr(e)})
             return
         if not agrees(got, row["exp"]):
-            detail = {"suffix": row["sfx"] or None, "expected": row["exp"], "observed": got}
+            detail = {"suffix": row["sfx"] or None, "expected": row["exp"], "observed": got,
+                      "searched_roots": row["active"]}
             if row["keys"] and agrees(got, row["dev"]):
                 for k in row["keys"]:
                     chk.violation(case, detail, key=k)
@@ -298,14 +316,14 @@ def replay_row(chk: Check, world: World, row: Dict[str, Any]) -> None:
                 chk.violation(case, detail)
         for e in row["load"]:
             chk.add("imports_checked")
-            res = world.load(e["dot"], world.active[0].joinpath(*e["parts"]))
+            res = world.load(e["dot"], world.active[e["k"] - 1].joinpath(*e["parts"]))
             if res != "same":
                 chk.violation(case, {"stage": "import", "dot_path": e["dot"], "file": e["parts"], "result": res})
         if row["auto"] and row["sfx"] == ".py":
             chk.add("autodiscover_calls")
             a = obs_auto(world)
-            want = sorted(r["dot"] for r in row["exp"])
-            okl = all(m["k"] == 1 and any(r["parts"] == m["parts"] and r["dot"] == m["dot"] for r in row["exp"])
+            want = sorted(r["dot"] for r in row["expauto"])
+            okl = all(any(r["k"] == m["k"] and r["parts"] == m["parts"] and r["dot"] == m["dot"] for r in row["expauto"])
                       for m in a["loaded"])
             if sorted(a["got"]) != want or not okl:
                 chk.violation(case, {"stage": "autodiscover", "expected_modules": want, "observed": a})
@@ -313,7 +331,7 @@ def replay_row(chk: Check, world: World, row: Dict[str, Any]) -> None:
 
 def model_check_and_replay(chk: Check, world: World, max_entries: int, small: List[int],
                            variants: Optional[List[int]] = None, sfx: Optional[List[int]] = None,
-                           codes: Optional[List[int]] = None) -> None:
+                           codes: Optional[List[int]] = None, cfg_sfx: Optional[List[int]] = None) -> None:
     w = workdir("c20mc")
     if codes is None:
         codes = [d * 100 + n for d in range(1, N_DIRS + 1) for n in range(1, N_FILES + 1)] + \
@@ -323,6 +341,7 @@ def model_check_and_replay(chk: Check, world: World, max_entries: int, small: Li
         "SPECIFICATION MCSpec\nCONSTANTS\n"
         f"  VarIdx = {_set(variants or range(1, N_VARIANTS + 1))}\n  SfxIdx = {_set(sfx or range(1, N_SFX + 1))}\n"
         f"  Codes = {_set(codes)}\n  SmallCodes = {_set(small)}\n  MaxEntries = {max_entries}\n"
+        f"  CfgSfxIdx = {_set([1, 2] if cfg_sfx is None else cfg_sfx)}\n"
         "INVARIANT Theorems\nINVARIANT Export\n")
     key = cfg.read_text()
     if key not in _exports:
@@ -334,13 +353,21 @@ def model_check_and_replay(chk: Check, world: World, max_entries: int, small: Li
     rows, distinct, generated = _exports[key]
     chk.add("states", distinct)
     chk.add("transitions", generated)
-    chk.add("tree_cases_replayed", len(rows))
+    chk.add("tree_cases_replayed", sum(1 for r in rows if r["label"] != "cfg"))
+    chk.add("configuration_cases_replayed", sum(1 for r in rows if r["label"] == "cfg"))
     chk.add("states_skipped_not_well_formed", distinct - len(rows))
     for row in rows:
         replay_row(chk, world, row)
     for row in rows:
-        if len(row["entries"]) >= 2 and row["exp"]:
-            chk.sample({"tree_case": {k: row[k] for k in ("root", "sfx", "entries", "exp", "load", "auto")}}, limit=2)
+        if row["label"] != "cfg" and len(row["trees"][0]) >= 2 and row["exp"]:
+            chk.sample({"tree_case": {k: row[k] for k in ("roots", "cfg", "sfx", "trees", "exp", "load", "auto")}}, limit=2)
+            break
+    for row in rows:
+        if row["label"] == "cfg" and row["cfg"]["dirs"] == "set" and not row["exp"] and \
+                any(r["src"] for r in row["roots"]):
+            chk.sample({"configuration_case": {"cfg": row["cfg"], "sfx": row["sfx"], "searched_roots": row["active"],
+                                               "roots": [[r["prefix"], r["src"]] for r in row["roots"]],
+                                               "exp": row["exp"]}}, limit=4)
             break
 
 
@@ -361,6 +388,9 @@ import django
 from django.conf import settings
 comp = {k: dec(v) for k, v in spec["COMPONENTS"].items()}
 comp["autodiscover"] = True
+if spec["form"] == "object":
+    from django_components import ComponentsSettings
+    comp = ComponentsSettings(**comp)
 settings.configure(BASE_DIR=dec(spec["BASE_DIR"]), SECRET_KEY="x", INSTALLED_APPS=spec["apps"], COMPONENTS=comp,
                    STATICFILES_DIRS=dec(spec["STATICFILES_DIRS"]), DATABASES={}, USE_TZ=True,
                    TEMPLATES=[{"BACKEND": "django.template.backends.django.DjangoTemplates", "DIRS": [],
@@ -395,12 +425,13 @@ def startup_probe(chk: Check, world: World, row: Dict[str, Any], script: Path) -
     """A fresh interpreter, COMPONENTS.autodiscover=True: after django.setup() exactly the files the
     specification selects for ".py" must have been imported, each under its dotted path."""
     import subprocess
-    roots = [row["root"]]
+    roots = row["roots"]
     world.reset(roots)
-    for e in row["entries"]:
-        world.mk(1, e["kind"], e["parts"])
-    st = world.settings_for(roots)
-    spec = {"syspath": world.paths, "S": str(world.S), "apps": ["django_components"] + [n for n, _ in APPS],
+    for k, tree in enumerate(row["trees"], 1):
+        for e in tree:
+            world.mk(k, e["kind"], e["parts"])
+    st = world.settings_for(roots, row["cfg"])
+    spec = {"form": st["form"], "syspath": world.paths, "S": str(world.S), "apps": ["django_components"] + [n for n, _ in APPS],
             "ignore": ["genapp", "genapp.apps", "pk", "pk.napp", "pk.napp.apps", "extapp", "extapp.apps"],
             "BASE_DIR": _enc(st["BASE_DIR"]), "COMPONENTS": {k: _enc(v) for k, v in st["COMPONENTS"].items()},
             "STATICFILES_DIRS": _enc(st["STATICFILES_DIRS"])}
@@ -413,9 +444,9 @@ def startup_probe(chk: Check, world: World, row: Dict[str, Any], script: Path) -
         raise MachineryError(f"start-up subprocess produced no result:\n{p.stdout[-500:]}\n{p.stderr[-1500:]}")
     out = json.loads(line[-1][len("VFSTARTUP "):])
     got = sorted((n, world.locate(f)[0], tuple(world.locate(f)[1])) for n, f in out["modules"])
-    want = sorted((r["dot"], 1, tuple(r["parts"])) for r in row["exp"])
+    want = sorted((r["dot"], r["k"], tuple(r["parts"])) for r in row["expauto"])
     chk.add("startup_subprocess_cases")
-    chk.count(["startup", row["root"]["id"], row["entries"]])
+    chk.count(["startup", row["label"], row["cfg"], [[r["prefix"], r["src"]] for r in roots], row["trees"]])
     # packages executed on the way (an __init__.py of a parent directory) are themselves selected files,
     # so the imported set must be exactly the selected set
     if out["error"] or got != want:
@@ -424,40 +455,85 @@ def startup_probe(chk: Check, world: World, row: Dict[str, Any], script: Path) -
                        "expected_modules": want, "imported_modules": got})
 
 
+def _stratum(r: Dict[str, Any]) -> str:
+    """Sampling stratum of an exported case (which cases get a real start-up; expectations stay TLC's):
+    the root variant, or for the configuration family COMPONENTS.dirs not given / empty / non-empty crossed
+    with STATICFILES_DIRS empty / non-empty."""
+    if r["label"] != "cfg":
+        return r["label"]
+    listed = any(m["in"] == "dirs" for x in r["roots"] for m in x["src"])
+    static = any(m["in"] == "static" for x in r["roots"] for m in x["src"])
+    return "cfg:dirs-%s:static-%s" % ("unset" if r["cfg"]["dirs"] == "unset" else "nonempty" if listed else "empty",
+                                      "nonempty" if static else "empty")
+
+
 def startup_checks(chk: Check, world: World, n: int) -> None:
-    """Sample n exported cases in which the specification says autodiscover() is determined."""
+    """Sample exported cases in which the specification says autodiscover() is determined: n spread over
+    the root variants (with a non-empty expectation), and max(1, n // 8) of every configuration stratum."""
     rows = [r for rows, _, _ in _exports.values() for r in rows
-            if r["auto"] and r["sfx"] == ".py" and r["exp"]]
+            if r["auto"] and r["sfx"] == ".py" and (r["exp"] or r["label"] == "cfg")]
     rnd = random.Random(chk.seed * 31 + 2020)
-    by_variant: Dict[str, List[Any]] = {}
+    by_stratum: Dict[str, List[Any]] = {}
     for r in rows:
-        by_variant.setdefault(r["root"]["id"], []).append(r)
+        by_stratum.setdefault(_stratum(r), []).append(r)
     script = workdir("c20su") / "startup.py"
     script.write_text(_STARTUP)
     picked = []
-    for vid in sorted(by_variant):
-        picked += rnd.sample(by_variant[vid], min(len(by_variant[vid]), max(1, n // max(1, len(by_variant)))))
+    nvar = max(1, sum(1 for k in by_stratum if not k.startswith("cfg:")))
+    for sid in sorted(by_stratum):
+        want = max(1, n // 8) if sid.startswith("cfg:") else max(1, n // nvar)
+        picked += rnd.sample(by_stratum[sid], min(len(by_stratum[sid]), want))
     for r in picked:
         startup_probe(chk, world, r, script)
 
 
 # ---------------------------------------------------------------- code -> spec: random sessions
-ROOT_POOL = [
-    {"id": "dirs-str", "kind": "dirs", "prefix": ["comps"], "globmeta": False},
-    {"id": "dirs-path", "kind": "dirs", "prefix": ["outer", "comps"], "globmeta": False},
-    {"id": "dirs-str", "kind": "dirs", "prefix": ["lib", "ui", "c"], "globmeta": False},
-    {"id": "app", "kind": "app", "prefix": ["genapp", "components"], "globmeta": False},
-    {"id": "app", "kind": "app", "prefix": ["pk", "napp", "components"], "globmeta": False},
-    {"id": "app", "kind": "app", "prefix": ["extapp", "components"], "globmeta": False},
-]
-LEGACY_POOL = [
-    [{"id": "static", "kind": "dirs", "prefix": ["assets"], "globmeta": False}],
-    [{"id": "static-tuple", "kind": "dirs", "prefix": ["assets"], "globmeta": False},
-     {"id": "static", "kind": "dirs", "prefix": ["lib", "more"], "globmeta": False}],
-    [{"id": "default", "kind": "dirs", "prefix": ["components"], "globmeta": False}],
-    [{"id": "dirs-bracket", "kind": "dirs", "prefix": ["comps"], "globmeta": True},
-     {"id": "app", "kind": "app", "prefix": ["extapp", "components"], "globmeta": False}],
-]
+PROJ_CANDS = [["comps"], ["outer", "comps"], ["lib", "ui", "c"], ["assets"], ["lib", "more"], ["components"]]
+APP_CANDS = [["genapp", "components"], ["pk", "napp", "components"], ["extapp", "components"],
+             ["genapp", "ui"], ["pk", "napp", "ui"], ["extapp", "widgets"]]
+APP_NAMES = ["components", "ui", "widgets"]
+FORMS = ["str", "str", "path", "tuple", "tuple-path"]
+
+
+def pick_config(rnd: random.Random) -> Tuple[List[Dict[str, Any]], Dict[str, Any]]:
+    """Candidate directories (all of them will exist and get files) and a configuration that mentions some of
+    them: COMPONENTS.dirs not given / given empty / given non-empty, crossed with STATICFILES_DIRS empty /
+    non-empty (plain and tuple form), app_dirs not given / empty / names, the default BASE_DIR/components
+    present or not, directories mentioned nowhere, COMPONENTS written as dict / dict with None / object."""
+    form = rnd.choice(["dict", "dict", "dict-none", "object"])
+    if rnd.random() < 0.06:
+        # a project path with glob metacharacters
+        return ([{"id": "dirs-bracket", "kind": "dirs", "prefix": ["comps"], "globmeta": True,
+                  "src": [{"in": "dirs", "form": "str"}]},
+                 {"id": "app", "kind": "app", "prefix": ["extapp", "components"], "globmeta": False, "src": []}],
+                {"dirs": "set", "appdirs": "unset", "appnames": [], "form": form})
+    cands = rnd.sample(PROJ_CANDS, rnd.randint(1, 4))
+    dirs_state = rnd.choice(["unset", "unset", "empty", "nonempty", "nonempty", "nonempty"])
+    static_state = rnd.choice(["empty", "empty", "nonempty", "nonempty", "nonempty"] if dirs_state != "nonempty"
+                              else ["empty", "empty", "nonempty"])
+    in_dirs = {i for i in range(len(cands)) if rnd.random() < 0.5} | {rnd.randrange(len(cands))} \
+        if dirs_state == "nonempty" else set()
+    in_static = {i for i in range(len(cands)) if rnd.random() < 0.4} | {rnd.randrange(len(cands))} \
+        if static_state == "nonempty" else set()
+    roots = []
+    for i, pre in enumerate(cands):
+        src = []
+        if i in in_dirs:
+            src.append({"in": "dirs", "form": rnd.choice(FORMS)})
+        if i in in_static:
+            src.append({"in": "static", "form": rnd.choice(FORMS)})
+        if pre == ["components"]:
+            src.append({"in": "default", "form": ""})
+        roots.append({"id": "p:" + "/".join(pre), "kind": "dirs", "prefix": pre, "globmeta": False, "src": src})
+    for pre in rnd.sample(APP_CANDS, rnd.choice([0, 1, 1, 2, 3])):
+        roots.append({"id": "a:" + "/".join(pre), "kind": "app", "prefix": pre, "globmeta": False, "src": []})
+    app_state = rnd.choice(["unset", "unset", "unset", "empty", "names", "names"])
+    names = rnd.sample(APP_NAMES, rnd.randint(1, 3)) if app_state == "names" else []
+    cfg = {"dirs": "unset" if dirs_state == "unset" else "set", "appdirs": "unset" if app_state == "unset" else "set",
+           "appnames": names, "form": form}
+    return roots, cfg
+
+
 CLEAN_DIRS = ["pkg", "sub", "_x", ".h", "a-b", "core", "p_q", "__pycache__", "Deep"]
 CLEAN_STEMS = ["a", "b", "m", "_p", "__init__", "__main__", ".hid", "x-y", "conftest", "x_y", "Mod", "__init__"]
 ANY_DIRS = CLEAN_DIRS + ["d.ot", "v1.2", "e.py", "m"]
@@ -469,15 +545,9 @@ SCAN_SFX = [".py", ".py", "", ".js", ".pyx", ".css", ".html"]
 
 def record_session(rnd: random.Random, tid: int, world: World) -> Dict[str, Any]:
     clean = rnd.random() < 0.45                 # sessions in which autodiscover() can be called
-    x = rnd.random()
-    if x < 0.25 and not clean:
-        roots = rnd.choice(LEGACY_POOL)
-    elif x < 0.35:
-        roots = LEGACY_POOL[rnd.choice([0, 2])]
-        roots = roots + rnd.sample(ROOT_POOL[3:], rnd.randint(0, 2))
-    else:
-        roots = rnd.sample(ROOT_POOL, rnd.randint(1, 4))
-    roots = [dict(r) for r in roots]
+    roots, cfg = pick_config(rnd)
+    if clean and any(r["globmeta"] for r in roots):
+        clean = False
     world.reset(roots)
     dirs_pool, stems = (CLEAN_DIRS, CLEAN_STEMS) if clean else (ANY_DIRS, ANY_STEMS)
     trees: List[Dict[Tuple[str, ...], str]] = [dict() for _ in roots]       # parts -> kind
@@ -532,7 +602,7 @@ def record_session(rnd: random.Random, tid: int, world: World) -> Dict[str, Any]
             a = obs_auto(world)
             events.append({"op": "auto", "got": a["got"], "loaded": a["loaded"]})
 
-    with world.configured(roots, dup_first=rnd.random() < 0.3):
+    with world.configured(roots, cfg, dup_first=rnd.random() < 0.3):
         for _round in range(rnd.randint(2, 4)):
             for _ in range(rnd.randint(1, 7)):
                 k = rnd.randrange(len(roots))
@@ -555,7 +625,7 @@ def record_session(rnd: random.Random, tid: int, world: World) -> Dict[str, Any]
                     world.rm(k + 1, kind, list(parts), occupied(k))
                     events.append({"op": "rm", "k": k + 1, "kind": kind, "parts": list(parts)})
                 scan()
-    return {"id": tid, "roots": roots, "clean": clean, "events": events}
+    return {"id": tid, "roots": roots, "cfg": cfg, "clean": clean, "events": events}
 
 
 def _clauses(s: str) -> List[str]:
@@ -592,7 +662,7 @@ def validate_sessions(chk: Check, world: World, n: int, salt: int = 0) -> None:
         t = traces[tno - 1]
         if "bad_case" in clauses:
             raise MachineryError(f"Trace_C20: autodiscover recorded on a tree where it is not determined: {t['roots']}")
-        case = {"kind": "session", "roots": t["roots"],
+        case = {"kind": "session", "roots": t["roots"], "cfg": t["cfg"],
                 "entries_before": [e for e in t["events"][:at] if e["op"] in ("mk", "rm")],
                 "event": t["events"][at - 1]}
         plain = [c for c in clauses if not c.startswith("dev:")]
@@ -602,14 +672,18 @@ def validate_sessions(chk: Check, world: World, n: int, salt: int = 0) -> None:
             for c in clauses:
                 chk.violation(case, {"failing_clauses": clauses}, key=c[4:])
     for t in traces:
-        chk.count([t["roots"], t["events"]])
+        chk.count([t["roots"], t["cfg"], t["events"]])
+        chk.add("trace_sessions_dirs_" + ("unset" if t["cfg"]["dirs"] == "unset" else
+                                          "nonempty" if any(m["in"] == "dirs" for r in t["roots"] for m in r["src"])
+                                          else "empty"))
         nobs += sum(1 for e in t["events"] if e["op"] not in ("mk", "rm"))
         chk.add("trace_autodiscover_calls", sum(1 for e in t["events"] if e["op"] == "auto"))
         chk.add("trace_imports", sum(1 for e in t["events"] if e["op"] == "load"))
     chk.add("traces_validated_against_impl", len(traces))
     chk.add("trace_observations", nobs)
     chk.add("trace_states", r.distinct)
-    chk.sample({"session_head": {"roots": traces[0]["roots"], "events": traces[0]["events"][:5]}}, limit=6)
+    chk.sample({"session_head": {"roots": traces[0]["roots"], "cfg": traces[0]["cfg"],
+                                 "events": traces[0]["events"][:5]}}, limit=6)
 
 
 # ---------------------------------------------------------------- tiers
@@ -731,7 +805,69 @@ def selftest(tier: str) -> int:
         finally:
             settings.STATICFILES_DIRS = old
 
+    @contextmanager
+    def components_setting(change):
+        """get_component_dirs sees COMPONENTS with `change(dict of the given fields)` applied."""
+        from django.conf import settings
+        old = settings.COMPONENTS
+        data = dict(old) if isinstance(old, dict) else {k: v for k, v in old._asdict().items() if v is not None}
+        settings.COMPONENTS = change(data)
+        try:
+            yield
+        finally:
+            settings.COMPONENTS = old
+
+    def with_setting(change):
+        def mut(orig, include_apps):
+            with components_setting(change):
+                return orig(include_apps)
+        return dirs_with(mut)
+
+    def empty_dirs_as_unset(data):             # `if not dirs` instead of `if dirs is None`
+        return {k: v for k, v in data.items() if not (k == "dirs" and not v)}
+
+    def empty_app_dirs_as_unset(data):
+        return {k: v for k, v in data.items() if not (k == "app_dirs" and not v)}
+
+    def static_added(orig, include_apps):      # STATICFILES_DIRS searched in addition to COMPONENTS.dirs
+        from django.conf import settings
+        res = list(orig(include_apps))
+        for d in settings.STATICFILES_DIRS:
+            d = Path(d[1] if isinstance(d, (tuple, list)) else d).resolve()
+            if d not in res:
+                res.append(d)
+        return res
+
+    def default_always(orig, include_apps):    # BASE_DIR/components searched whatever is configured
+        from django.conf import settings
+        res = list(orig(include_apps))
+        d = (Path(settings.BASE_DIR) / "components").resolve()
+        return res if d in res else res + [d]
+
+    def default_with_static(orig, include_apps):   # legacy dirs extend the default instead of replacing it
+        from django.conf import settings
+        res = list(orig(include_apps))
+        raw = settings.COMPONENTS
+        given = (raw.get("dirs") if isinstance(raw, dict) else raw.dirs) is not None
+        d = (Path(settings.BASE_DIR) / "components").resolve()
+        return res + [d] if not given and settings.STATICFILES_DIRS and d not in res else res
+
+    def app_default_name_always(orig, include_apps):   # <app>/components searched although app_dirs names others
+        from django.apps import apps
+        res = list(orig(include_apps))
+        for conf in apps.get_app_configs():
+            d = Path(conf.path) / "components"
+            if include_apps and d.exists() and d not in res:
+                res.append(d)
+        return res
+
     probes = [
+        ("empty-COMPONENTS.dirs-treated-as-not-given", with_setting(empty_dirs_as_unset)),
+        ("empty-app_dirs-treated-as-not-given", with_setting(empty_app_dirs_as_unset)),
+        ("STATICFILES_DIRS-searched-besides-COMPONENTS.dirs", dirs_with(static_added)),
+        ("default-components-dir-always-searched", dirs_with(default_always)),
+        ("legacy-dirs-extend-the-default-dir", dirs_with(default_with_static)),
+        ("app-components-dir-searched-besides-app_dirs", dirs_with(app_default_name_always)),
         ("underscore-dirs-not-skipped", probe_search(lambda ps, n: not (n.startswith("_") and n != "__init__.py"))),
         ("underscore-check-top-level-dir-only",
          probe_search(lambda ps, n: not (ps[:1] and ps[0].startswith("_")) and not (n.startswith("_") and n != "__init__.py"))),
@@ -758,7 +894,7 @@ def selftest(tier: str) -> int:
 
         def body(chk: Check) -> None:
             model_check_and_replay(chk, world, max_entries=2, small=[101, 203, 205, 117, 10101], sfx=[1, 2],
-                                   codes=light)
+                                   codes=light, cfg_sfx=[1])
             validate_sessions(chk, world, 60)       # (the start-up subprocess cannot see in-process patches)
 
         rc = run_probes(PID, probes, body)
@@ -799,11 +935,11 @@ def replay(path: str) -> int:
             print(json.dumps({"violations_not_explained_by_known_deviation": chk.violations}, indent=1))
             return 1 if chk.violations else 0
         if case.get("kind") == "session":
-            roots = case["roots"]
+            roots, cfg = case["roots"], case["cfg"]
             world.reset(roots)
             evs = []
             present: Dict[int, Dict[Tuple[str, ...], str]] = {}
-            with world.configured(roots):
+            with world.configured(roots, cfg):
                 for e in case["entries_before"]:
                     t = present.setdefault(e["k"], {})
                     if e["op"] == "mk":
@@ -823,7 +959,7 @@ def replay(path: str) -> int:
                     ev.update(obs_auto(world))
                 evs.append(ev)
             w = workdir("c20rp")
-            tlc.write_ndjson(w / "s.ndjson", [{"id": 1, "roots": roots, "events": evs}])
+            tlc.write_ndjson(w / "s.ndjson", [{"id": 1, "roots": roots, "cfg": cfg, "events": evs}])
             (w / "t.cfg").write_text("SPECIFICATION TrSpec\nINVARIANT TreesWellFormed\n")
             r = tlc.require_ok(tlc.run("Trace_C20", str(w / "t.cfg"), env={"IN": str(w / "s.ndjson")}, workers=1),
                                "Trace_C20")
